@@ -846,3 +846,12 @@ SPECS["C09"]["level_text"] += (' Props/C09G (track glue): the in-capacity hypoth
     'run preserves WorldInv/ArenaInv, every request of the encoder is <= max(maxInit,maxSub) <= 64008 < 2^20 so (extracted production tuning) every chunk '
     'its arena allocates has capacity <= 2^20, and ArenaInv puts every owned slice inside its chunk: lag < 2^20 + 64008 + 2 for every run on the structural '
     'model, any policy constants, any calls, any drain schedule (enc_lag_le_prod_partial; `_partial` = borrow/copy input methods only).')
+SPECS["C10"]["lean_modules"] += ["Woodpile.Props.C10G"]
+SPECS["C10"]["theorems"] += [
+    "Woodpile.Props.C10G.streaming_caps_ghost",
+    "Woodpile.Props.C10G.streaming_footprint_ghost",
+    "Woodpile.Props.C10G.streaming_footprint_ghost_prod",
+]
+SPECS["C10"]["level_text"] += (' Props/C10G (track glue): the capacities of streaming_footprint are tied to the allocation-time capacity ghost of '
+    'GReach (C05): along the streaming pattern the ghost itself is <= S on every live chunk and is the recorded capacity of the current cache '
+    '(streaming_footprint_ghost).')
